@@ -56,6 +56,14 @@ def path_stub(pure):
     o.opaque_methods['with_name'] = lambda I_, ob, a, k: path_stub(pure.with_name(text_arg(I_, (a + list(k.values()))[0])))
     o.opaque_methods['joinpath'] = lambda I_, ob, a, k: path_stub(pure.joinpath(*[text_arg(I_, x_) for x_ in a]))
     o.opaque_methods['as_posix'] = lambda I_, ob, a, k: pure.as_posix()
+
+    def write_text(I_, ob, a, k):
+        # Path.write_text(data): the file holds exactly the text (encoding / errors / newline are outside the fragment)
+        if len(a) != 1 or k:
+            raise Unsupported('pathlib.Path.write_text with options')
+        I_.files[ob] = I_.seg(a[0]).splitlines()
+        return None
+    o.opaque_methods['write_text'] = write_text
     o.opaque_methods['__str__'] = lambda I_, ob, a, k: str(pure)
     o.opaque_methods['__fspath__'] = lambda I_, ob, a, k: str(pure)
     for nm_ in set(dir(pathlib.Path)) | set(dir(pathlib.PurePosixPath)):
@@ -568,13 +576,21 @@ def file_assembly(run, repo):
         if fn is None:
             raise AnchorError('%s.%s not found' % (OM, writer))
         run.fn('%s.%s' % (OM, writer))
-        for user_ids in (False, True):
+        # reactions with and without user ids; three distinct BEP relations (one shared by two reactions), without a
+        # name (the writers have code for that: b_0000 ...) and with names given by the user; a reaction whose
+        # relation is None and one that has no such attribute at all (every SurfaceReaction built without transition
+        # state)
+        for user_ids, bep_names in itertools.product((False, True), (None, ('bep_x', 'bep_y', 'bep_z'))):
             I = new_interp(repo)
             rx = [marker_obj(I, 'rxn%d' % i, id=('user_%d' % i if user_ids and i == 1 else None), bep=None)
-                  for i in range(3)]
-            bep = marker_obj(I, 'bep0', name=None)
-            rx[2].attrs['bep'] = bep
-            rx[0].attrs['bep'] = bep
+                  for i in range(6)]
+            beps = [marker_obj(I, 'bep%d' % i, name=(bep_names[i] if bep_names else None)) for i in range(3)]
+            rx[0].attrs['bep'] = beps[0]
+            rx[2].attrs['bep'] = beps[0]
+            rx[3].attrs['bep'] = beps[1]
+            del rx[4].attrs['bep']
+            rx[4].missing.add('bep')
+            rx[5].attrs['bep'] = beps[2]
             li = [marker_obj(I, 'int%d' % i, name=None) for i in range(2)]
             sp = [marker_obj(I, 'sp%d' % i, name='n%d' % i) for i in range(3)]
             seen_ids = []
@@ -591,38 +607,53 @@ def file_assembly(run, repo):
             ph.opaque_methods['to_omkm_yaml'] = snap(orig_yaml)
             out = I.call_function(m, fn, [], {'phases': ListV([ph]), 'species': ListV(sp), 'reactions': ListV(rx),
                                               'lateral_interactions': ListV(li)})
-            label = '%s user ids=%s' % (writer, user_ids)
+            label = '%s user ids=%s%s' % (writer, user_ids, ', BEP relations named by the user' if bep_names else '')
+            ksuf = ' (BEP relations named)' if bep_names else ''
             if isinstance(out, Raised):
                 run.fail('DATAFLOW.assembly', 'io.omkm.' + writer, label, 'raises %s' % out.exc, m,
                          out.node if hasattr(out.node, 'lineno') else fn)
                 continue
             ids = [r.attrs.get('id') for r in rx]
             run.check(all(isinstance(x, str) for x in ids) and len(set(ids)) == len(ids), 'DATAFLOW.ids',
-                      'io.omkm.' + writer, 'reaction ids' + (' (user id present)' if user_ids else ''),
+                      'io.omkm.' + writer, 'reaction ids' + (' (user id present)' if user_ids else '') + ksuf,
                       '[%s] reaction ids after writing are %s: every reaction needs a unique id' % (label, ids), m, fn,
                       sample='[%s] ids %s' % (label, ids))
             names = [x.attrs.get('name') for x in li]
             run.check(all(isinstance(x, str) for x in names) and len(set(names)) == len(names), 'DATAFLOW.ids',
-                      'io.omkm.' + writer, 'interaction ids', '[%s] lateral interaction ids are %s' % (label, names),
-                      m, fn)
+                      'io.omkm.' + writer, 'interaction ids' + ksuf,
+                      '[%s] lateral interaction ids are %s' % (label, names), m, fn)
             # phases are written after the ids exist
             run.check(bool(seen_ids) and all(x is not None for x in seen_ids[0]), 'ORDER.ids-before-phases',
-                      'io.omkm.' + writer, 'ids before phases',
+                      'io.omkm.' + writer, 'ids before phases' + ksuf,
                       '[%s] when the phase is written the ids are %s' % (label, seen_ids[:1]), m, fn)
             # every object emitted exactly once, with the id it ends up with
             kind = 'cti' if writer == 'write_cti' else 'yaml'
-            for o in rx + li + sp + [ph, bep]:
+            for o in rx + li + sp + [ph] + beps:
                 calls = [c_ for c_ in o.calls if c_[0] == kind]
                 final = o.attrs.get('id', o.attrs.get('name'))
                 okc = len(calls) == 1 and calls[0][1] == final
-                if o is bep and not okc and len(calls) == 1:
+                if o in beps and not okc and len(calls) == 1:
                     # the BEP was emitted before it received an id
                     run.note('%s: BEP relation without a name is emitted with id %r (write_thermo_yaml assigns '
                              'b_0000 first, write_cti only counts)' % (writer, calls[0][1]), m, fn)
                     continue
-                run.check(okc, 'DATAFLOW.once', 'io.omkm.' + writer, 'object:' + o.name.rstrip('0123456789'),
+                run.check(okc, 'DATAFLOW.once', 'io.omkm.' + writer, 'object:' + o.name.rstrip('0123456789') + ksuf,
                           '[%s] %s is emitted %d time(s) with id %s (final id %s)'
                           % (label, o.name, len(calls), [c_[1] for c_ in calls], final), m, fn)
+            # the relations keep the names the user gave; where the writer names the unnamed ones (the YAML writer: the
+            # entry carries the id) the names it hands out are distinct
+            bnames = [b_.attrs.get('name') for b_ in beps]
+            if bep_names:
+                run.check(bnames == list(bep_names), 'DATAFLOW.ids', 'io.omkm.' + writer, 'BEP ids given by the user',
+                          '[%s] the relations named %s by the user are called %s after writing' % (label, bep_names,
+                                                                                                  bnames), m, fn)
+            elif any(x is not None for x in bnames):
+                run.check(all(isinstance(x, str) for x in bnames) and len(set(bnames)) == 3, 'DATAFLOW.ids',
+                          'io.omkm.' + writer, 'BEP ids',
+                          '[%s] three distinct BEP relations without a name are called %s after writing: every relation '
+                          'needs an id of its own' % (label, bnames), m, fn)
+            if bep_names:
+                continue        # what follows does not depend on the relations
             # the Motz-Wise option reaches the file: as the CTI directive / on every reaction before it is emitted
             for mw_ in (True, False):
                 I2 = new_interp(repo)
@@ -651,6 +682,90 @@ def file_assembly(run, repo):
                 run.check(sorted(fields) == sorted(['units', 'phases', 'species', 'reactions', 'beps', 'interactions']),
                           'TABLE.sections', 'io.omkm.write_thermo_yaml', 'sections',
                           '[%s] sections dumped: %s' % (label, fields), m, fn)
+        # the two halves joined: the ids the writer hands out are the ids the phase entry and the BEP entry name.
+        # Marker reactions and interactions around a real interface and a real BEP relation (built through their
+        # constructors): whatever spelling the writer chooses for an automatic id, the members named by the range
+        # notation of the interface (CTI) and of the relation (CTI, YAML) must be reactions / interactions of the file
+        from .c07b import named_ids
+        import re
+        for user_ids in (False, True):
+            I = new_interp(repo)
+            D = I.D
+            fr = Frame(I, repo.module('pmutt'), {}, None, None)
+            # a user id in the spelling the range notation prints (head, '_', four digits); any other spelling is
+            # re-printed with four digits by the entries that refer to it - a defect of the pristine tree
+            # (DEFECT2_C07.md D1), the instance with 'u_7' is not armed
+            rx = [marker_obj(I, 'rxn%d' % i, id=('u_0007' if user_ids and i == 1 else None), bep=None) for i in range(4)]
+            li = [marker_obj(I, 'int%d' % i, name=('lat_0003' if user_ids and i == 0 else None)) for i in range(2)]
+            for o_ in li:
+                o_.missing.add('id')            # a lateral interaction is identified by its name
+            bep = I.construct(repo.cls('pmutt.omkm.reaction.BEP'), [],
+                              {'name': 'bep_a', 'slope': D.sym('bslope'), 'intercept': D.sym('bicpt'),
+                               'direction': 'cleavage', 'descriptor': 'delta_H'}, name='bep_real')
+            if not isinstance(bep, Obj):
+                raise Unsupported('omkm.BEP(...) gives %s for the model relation' % show(bep, 80))
+            members = get_public(I, bep, 'cleavage_reactions')
+            if not isinstance(members, ListV):
+                raise Unsupported('BEP.cleavage_reactions is %s' % show(members, 60))
+            for r_ in rx[1:]:
+                # what SurfaceReaction.__init__ does for a reaction whose transition state is the relation
+                members.items.append(r_)
+                r_.attrs['bep'] = bep
+            spx = [Obj('sp%d' % k, attrs={'name': 'S%d(S)' % k, 'elements': DictV({'H': C(1)}), 'phase': None})
+                   for k in range(2)]
+            iface = fr.apply(repo.cls('pmutt.omkm.phase.InteractingInterface'), [],
+                             {'name': 'terrace', 'species': ListV(spx), 'site_density': D.sym('sden'),
+                              'phases': ListV(['gas']), 'reactions': ListV(list(rx)),
+                              'interactions': ListV(list(li))}, None)
+            out = I.call_function(m, fn, [], {'phases': ListV([iface]), 'reactions': ListV(rx),
+                                              'lateral_interactions': ListV(li), 'units': units_obj(I, repo)})
+            label = '%s, real interface and BEP relation, user ids=%s' % (writer, user_ids)
+            if isinstance(out, Raised):
+                run.fail('DATAFLOW.members', 'io.omkm.' + writer, label, 'raises %s' % out.exc, m,
+                         out.node if hasattr(out.node, 'lineno') else fn)
+                continue
+            rx_ids = {r_.attrs.get('id') for r_ in rx}
+            li_ids = {x_.attrs.get('name') for x_ in li}
+            mem_ids = {r_.attrs.get('id') for r_ in rx[1:]}
+            got = {}
+            if writer == 'write_cti':
+                lit = ''.join(s_.text if s_.kind == 'lit' else '\x01' for s_ in I.seg(out).segs) \
+                    if isinstance(out, (str, SegStr)) else ''
+
+                def slot(directive, name):
+                    """the ids a keyword of a directive names; None when directive, keyword or list is not there"""
+                    i_ = lit.find(directive + '(')
+                    k_ = lit.find(name + '=', i_) if i_ >= 0 else -1
+                    if k_ < 0:
+                        return None
+                    rest = lit[k_ + len(name) + 1:].lstrip()
+                    if not rest.startswith('[') or ']' not in rest:
+                        return None
+                    body = rest[1:rest.index(']')]
+                    return named_ids(I, ListV(re.findall(r'"([^"]*)"', body)))
+                got = {'interface reactions': slot('interacting_interface', 'reactions'),
+                       'interface interactions': slot('interacting_interface', 'interactions'),
+                       'BEP cleavage reactions': slot('bep', 'cleavage_reactions'),
+                       'BEP synthesis reactions': slot('bep', 'synthesis_reactions')}
+                want = {'interface reactions': rx_ids, 'interface interactions': li_ids,
+                        'BEP cleavage reactions': mem_ids, 'BEP synthesis reactions': set()}
+            else:
+                ents = [d_.d['beps'] for d_ in I.dumps if isinstance(d_, DictV) and list(d_.d) == ['beps']]
+                ent = ents[0].items[0] if len(ents) == 1 and isinstance(ents[0], ListV) and len(ents[0]) == 1 and \
+                    isinstance(ents[0].items[0], DictV) else None
+                got = {'BEP cleavage reactions': named_ids(I, ent.d.get('cleavage-reactions')) if ent is not None
+                       else None,
+                       'BEP synthesis reactions': named_ids(I, ent.d.get('synthesis-reactions')) if ent is not None
+                       else None}
+                want = {'BEP cleavage reactions': mem_ids, 'BEP synthesis reactions': set()}
+            for what, w_ in want.items():
+                run.check(got.get(what) == w_, 'DATAFLOW.members', 'io.omkm.' + writer,
+                          '%s name ids of the file%s' % (what, ' (user ids present)' if user_ids else ''),
+                          '[%s] the %s are named as %s; the file gives its reactions the ids %s and its interactions %s '
+                          '(members %s): an entry must name ids that exist in the file'
+                          % (label, what, sorted(got[what]) if isinstance(got.get(what), set) else got.get(what),
+                             sorted(rx_ids, key=str), sorted(li_ids, key=str), sorted(w_, key=str)), m, fn,
+                          sample='[%s] %s == %s' % (label, what, sorted(w_, key=str)))
         # the temperature the file is written for is the temperature every reaction is evaluated at (its barrier is
         # a Gibbs energy): the reaction emitters are handed exactly the writer's T
         I = new_interp(repo)
@@ -720,6 +835,63 @@ def file_assembly(run, repo):
         out = I.call_function(m, fn, [], {})
         run.check(not isinstance(out, Raised), 'DEF.defaults', 'io.omkm.' + writer, 'all options omitted',
                   '%s() with everything omitted raises %s' % (writer, out.exc if isinstance(out, Raised) else ''), m, fn)
+
+
+# ----------------------------------------------------------------------
+def files_on_disk(run, repo):
+    """a writer called with filename= puts on disk exactly the text it returns when no file name is given (that text is
+    what every other instance of this module reads)"""
+    m = repo.module(OM)
+
+    def model(I, writer):
+        if writer == 'write_yaml':
+            D = I.D
+            return {'reactor_type': 'cstr', 'temperature_mode': 'isothermal', 'V': D.sym('v_V'), 'T': D.sym('v_T'),
+                    'P': D.sym('v_P'), 'flow_rate': D.sym('v_Q'), 'end_time': D.sym('v_t'), 'transient': False,
+                    'phases': DictV(), 'units': units_obj(I, repo)}
+        rx = [marker_obj(I, 'rxn%d' % i, id=None, bep=None) for i in range(2)]
+        bep = marker_obj(I, 'bep0', name='bep_user')
+        rx[1].attrs['bep'] = bep
+        kw = {'phases': ListV([marker_obj(I, 'phase0', name='p0')]),
+              'species': ListV([marker_obj(I, 'sp%d' % i, name='n%d' % i) for i in range(2)]),
+              'reactions': ListV(rx), 'lateral_interactions': ListV([marker_obj(I, 'int0', name=None)]),
+              'units': units_obj(I, repo)}
+        if writer == 'write_cti':
+            kw['write_xml'] = False     # the conversion to XML is Cantera's ctml_writer, not part of this comparison
+        return kw
+    for writer, fname in (('write_cti', 'model.cti'), ('write_thermo_yaml', 'thermo.yaml'), ('write_yaml', 'reactor.yaml')):
+        fn = m.functions.get(writer)
+        if fn is None:
+            raise AnchorError('%s.%s not found' % (OM, writer))
+        order = RankOrder({'v_' + k: 1 for k in 'VTPQt'}, const_ranks=True)
+
+        def quoting_dump(I_, fr, args, kwargs, n):
+            # the serialiser's text as the writers meet it: quoted scalars, list items at the start of a line - what
+            # the writers do to the text after it is assembled must have happened to the file as well
+            I_.dumps.append(kwargs.get('data', args[0] if args else None))
+            return SegStr.lit("key: '") + SegStr.field('yaml#%d' % len(I_.dumps), None, 'text') + "'\n- item\n- item\n"
+        I0 = new_interp(repo, order=order)
+        I0.native['yaml.dump'] = quoting_dump
+        text0 = I0.call_function(m, fn, [], model(I0, writer))
+        I1 = new_interp(repo, order=order)
+        I1.native['yaml.dump'] = quoting_dump
+        ret1 = I1.call_function(m, fn, [], dict(model(I1, writer), filename=fname))
+        files = list(I1.files.values())
+        if isinstance(text0, Raised) or isinstance(ret1, Raised) or not isinstance(text0, (str, SegStr)):
+            run.fail('DATAFLOW.file', 'io.omkm.' + writer, 'file on disk',
+                     '%s returns %s without a file name and %s with filename=%r' % (writer, show(text0, 60),
+                                                                                   show(ret1, 60), fname), m, fn)
+            continue
+        on_disk = SegStr()
+        for ln in (files[0] if len(files) == 1 else []):
+            on_disk = on_disk + I1.seg(ln)
+        ok = len(files) == 1 and seg_equal(I0, on_disk, text0)
+        n0, n1 = len(I0.seg(text0).splitlines()), len(files[0]) if len(files) == 1 else 0
+        run.check(ok, 'DATAFLOW.file', 'io.omkm.' + writer, 'file on disk',
+                  '%s(filename=%r) writes %d file(s); the file has %d line(s), the text returned for the same model '
+                  'without a file name has %d: the file on disk must be that text. File begins %s'
+                  % (writer, fname, len(files), n1, n0, show(on_disk, 200)), m, fn,
+                  sample='%s(filename=...) -> file == text returned for filename=None' % writer)
 
 
 # ----------------------------------------------------------------------
@@ -1007,25 +1179,45 @@ def check(run, repo):
         'species class is a plain number; without a unit system every unit-carrying reactor option alone is written as '
         'given; series given as text, or as text mixed with numbers, keep the text and give the numbers the unit; the '
         'thermo writers hand every reaction their P (up to a constant factor) and ads_act_method, and an emitter that '
-        'accepts neither is still written.')
+        'accepts neither is still written. Added after the second white-box review: reaction steps whose reactant '
+        'side is one surface species with coefficient 2, two with coefficients 2 + 1, a gas species with coefficient '
+        '1/2 (A against kB/h over the site densities counted with the coefficients); the coefficients printed in the '
+        'equation are the coefficients of the reaction (1 not written); every reaction object is written a second time '
+        'for another unit system at another (T, P) and must give the second expectation, and what it reports publicly '
+        '(A, Ea, beta, sticking coefficient, id, flags) is the same before and after every emitter call; phase '
+        'entries in a second unit system (the default: molec, cm, kg) so that no conversion factor is 1 in both; '
+        'numbers of the CTI directives are printed in a presentation that keeps at least six significant digits '
+        'whatever the magnitude; file assembly with three distinct BEP relations (unnamed and named by the user), a '
+        'reaction without a bep attribute, and with a real interface and a real BEP relation around marker reactions: '
+        'the ids named by the range notation of the interface and of the relation are the ids the writer handed '
+        'out; every writer called with filename= leaves on disk exactly the text it returns without a file name '
+        '(serialiser text with quotes and list items, so that the post-processing is part of the comparison).')
     run.assumptions = ['yaml.dump is an uninterpreted serialiser that receives the data checked here',
+                       'pathlib.Path of a concrete file name behaves lexically like PurePosixPath; its file-system '
+                       'methods are outside the fragment (refused)',
                        'Python evaluates default argument values once (modelled: defaults are shared between calls)']
     run.undecided = ['that the YAML loads and the CTI parses (PyYAML / Cantera behaviour, quote stripping by '
                      'str.replace)', 'uniqueness of ids when user ids collide with automatic ones',
-                     '_filter_reactions semantics']
+                     '_filter_reactions semantics',
+                     'the XML file write_cti derives from the CTI file (write_xml=True: Cantera\'s ctml_writer)',
+                     'line-end translation of files on disk (newline= is handed to open() as given)',
+                     'user ids whose number part is not written with four digits (the range notation re-prints them '
+                     'with four: DEFECT2_C07.md)']
     assign_yaml(run, repo)
     reactor_yaml(run, repo)
     reactor_collections(run, repo)
     file_assembly(run, repo)
+    files_on_disk(run, repo)
     units_header(run, repo)
     phases_independent(run, repo)
     organize(run, repo)
     from .c07b import emitters
     emitters(run, repo)
-    run.floor('C07 obligations', run.obligations, 250)
+    run.floor('C07 obligations', run.obligations, 800)
 
 
 O_ = 'pmutt/io/omkm.py'
+R_ = 'pmutt/omkm/reaction.py'
 MUTANTS = [
     {'name': 'a BEP relation is listed once per reaction', 'expect': ('DATAFLOW.phase', 'InteractingInterface.to_cti'),
      'edits': [('pmutt/omkm/phase.py', "                if bep.name in beps:\n                    continue", "                if bep.name in beps:\n                    pass")]},
@@ -1109,5 +1301,73 @@ MUTANTS = [
      'edits': [(O_, '                    reaction.to_omkm_yaml, units=units, T=T, P=P,', '                    reaction.to_omkm_yaml, units=units, P=P,')]},
     {'name': 'CTI evaluates the reactions at the default temperature', 'expect': ('DATAFLOW.option', 'write_cti'),
      'edits': [(O_, '                                                 T=T, P=P,\n                                                 ads_act_method=ads_act_method)\n            reaction_lines', '                                                 P=P,\n                                                 ads_act_method=ads_act_method)\n            reaction_lines')]},
+    # instances added after the second white-box review (whitebox2/C07.md)
+    {'name': 'A1: number of surface reactants counted without their coefficients', 'expect': ('DATAFLOW.reaction', 'SurfaceReaction.to_'),
+     'edits': [(R_, '                n_surf += stoich', '                n_surf += 1')]},
+    {'name': 'A1: site density of a reactant taken once whatever its coefficient', 'expect': ('DATAFLOW.reaction', 'SurfaceReaction.to_'),
+     'edits': [(R_, '                site_dens.extend([site_den] * int(stoich))', '                site_dens.extend([site_den])')]},
+    {'name': 'A2: thermo YAML keeps the BEP relations in a dictionary keyed by name', 'expect': ('DATAFLOW.once', 'write_thermo_yaml'),
+     'edits': [(O_, "    beps = []\n    if reactions is not None:\n        reactions_out = []", "    beps = {}\n    if reactions is not None:\n        reactions_out = []"),
+               (O_, "                if bep is not None and bep not in beps:\n                    beps.append(bep)", "                if bep is not None:\n                    beps.setdefault(bep.name, bep)", 1, 2),
+               (O_, "        for bep in beps:\n            # Assign name if necessary", "        for bep in beps.values():\n            # Assign name if necessary")]},
+    {'name': 'A2: CTI keeps the BEP relations in a dictionary keyed by name', 'expect': ('DATAFLOW.once', 'write_cti'),
+     'edits': [(O_, "        beps = []\n        reaction_lines = []", "        beps = {}\n        reaction_lines = []"),
+               (O_, "                if bep is not None and bep not in beps:\n                    beps.append(bep)", "                if bep is not None:\n                    beps.setdefault(bep.name, bep)", 0, 2),
+               (O_, "            for bep in beps:\n                bep_CTI", "            for bep in beps.values():\n                bep_CTI")]},
+    {'name': 'A3: reactor file written with writelines', 'expect': ('DATAFLOW.file', 'write_yaml'),
+     'edits': [(O_, '            f_ptr.write(lines_out)', '            f_ptr.writelines(lines)', 2, 3)]},
+    {'name': 'A3: CTI file written with writelines', 'expect': ('DATAFLOW.file', 'write_cti'),
+     'edits': [(O_, '            f_ptr.write(lines_out)', '            f_ptr.writelines(lines)', 0, 3)]},
+    {'name': 'A3: thermo YAML file written before the quotes are removed', 'expect': ('DATAFLOW.file', 'write_thermo_yaml'),
+     'edits': [(O_, '            f_ptr.write(lines_out)', "            f_ptr.write('\\n'.join(lines))", 1, 3)]},
+    {'name': 'A4: pre-exponential factor kept on the reaction', 'expect': ('EFFECT.emitter', 'SurfaceReaction.to_'),
+     'edits': [(R_, '            A = A / eff_site_den**(n_surf - 1)\n', '            A = A / eff_site_den**(n_surf - 1)\n            if not include_entropy:\n                self.A = A\n')]},
+    {'name': 'A4: pre-exponential factor memoised out of sight', 'expect': ('DATAFLOW.reaction', 'SurfaceReaction.to_'),
+     'edits': [(R_, '            A = A / eff_site_den**(n_surf - 1)\n', '            A = A / eff_site_den**(n_surf - 1)\n            self._A_memo = A\n'),
+               (R_, '        if self.A is None:\n            if self.transition_state is None or not include_entropy:', '        if getattr(self, \'_A_memo\', None) is not None:\n            A = self._A_memo\n        elif self.A is None:\n            if self.transition_state is None or not include_entropy:')]},
+    {'name': 'A5: CTI hands out reaction ids with five digits', 'expect': ('DATAFLOW.members', 'write_cti'),
+     'edits': [(O_, "                reaction.id = 'r_{:04d}'.format(i)", "                reaction.id = 'r_{:05d}'.format(i)", 0, 2)]},
+    {'name': 'A5: CTI hands out interaction ids with five digits', 'expect': ('DATAFLOW.members', 'write_cti'),
+     'edits': [(O_, "                    lat_interaction.name = 'i_{:04d}'.format(i)", "                    lat_interaction.name = 'i_{:05d}'.format(i)")]},
+    {'name': 'A5: thermo YAML hands out reaction ids with five digits', 'expect': ('DATAFLOW.members', 'write_thermo_yaml'),
+     'edits': [(O_, "                reaction.id = 'r_{:04d}'.format(i)", "                reaction.id = 'r_{:05d}'.format(i)", 1, 2)]},
+    {'name': 'x1: thermo YAML reads reaction.bep unguarded', 'expect': ('DATAFLOW.assembly', 'write_thermo_yaml'),
+     'edits': [(O_, "            try:\n                bep = reaction.bep\n            except AttributeError:\n                pass\n            else:\n                if bep is not None and bep not in beps:\n                    beps.append(bep)", "            bep = reaction.bep\n            if bep is not None and bep not in beps:\n                beps.append(bep)", 1, 2)]},
+    {'name': 'x1: CTI reads reaction.bep unguarded', 'expect': ('DATAFLOW.assembly', 'write_cti'),
+     'edits': [(O_, "            try:\n                bep = reaction.bep\n            except AttributeError:\n                pass\n            else:\n                if bep is not None and bep not in beps:\n                    beps.append(bep)", "            bep = reaction.bep\n            if bep is not None and bep not in beps:\n                beps.append(bep)", 0, 2)]},
+    {'name': 'x2: NASA CTI prints its low coefficients in fixed-point notation', 'expect': ('SLOT.cti', 'Nasa.to_cti'),
+     'edits': [('pmutt/empirical/nasa.py', "                   '                      {: 2.8E}]),\\n'", "                   '                      {: 2.8f}]),\\n'")]},
+    {'name': 'x2: NASA-9 CTI prints a coefficient in fixed-point notation', 'expect': ('SLOT.cti', 'Nasa9.to_cti'),
+     'edits': [('pmutt/empirical/nasa.py', "                   '                      {: 2.8E}, {: 2.8E}, {: 2.8E}])'", "                   '                      {: 2.8E}, {: 2.8E}, {: 2.8f}])'")]},
+    {'name': 'x2: Shomate CTI prints a coefficient in fixed-point notation', 'expect': ('SLOT.cti', 'Shomate.to_cti'),
+     'edits': [('pmutt/empirical/shomate.py', "                   '                        {: 2.8E}]))').format(", "                   '                        {: 2.8f}]))').format(")]},
+    {'name': 'x2: sticking coefficient and barrier in fixed-point notation', 'expect': ('DATAFLOW.reaction', 'SurfaceReaction.to_cti'),
+     'edits': [(R_, "                       '                 stick({: .5e}, {}, {: .5e}){})'", "                       '                 stick({: .5f}, {}, {: .5f}){})'")]},
+    {'name': 'x3: interface YAML entry forgets mol -> quantity unit', 'expect': ('DIM.site-density', 'InteractingInterface.to_omkm_yaml'),
+     'edits': [('pmutt/omkm/phase.py', "        site_den = self.site_density\\\n                   *c.convert_unit(initial='mol', final=quantity_unit)\\\n                   /c.convert_unit(initial='cm2', final=area_unit)\n        site_den_param",
+                "        site_den = self.site_density\\\n                   /c.convert_unit(initial='cm2', final=area_unit)\n        site_den_param")]},
+    {'name': 'x3: interface CTI entry forgets mol -> quantity unit', 'expect': ('DIM.site-density', 'InteractingInterface.to_cti'),
+     'edits': [('pmutt/omkm/phase.py', "        site_den = self.site_density\\\n                   *c.convert_unit(initial='mol', final=quantity_unit)\\\n                   /c.convert_unit(initial='cm2', final=area_unit)\n\n        phases_names = []",
+                "        site_den = self.site_density\\\n                   /c.convert_unit(initial='cm2', final=area_unit)\n\n        phases_names = []")]},
+    {'name': 'x5: bulk density forgets g -> mass unit', 'expect': ('DIM.density', 'StoichSolid.to_cti'),
+     'edits': [('pmutt/cantera/phase.py', "        density = self.density*c.convert_unit(initial='g', final=mass_unit)\\\n", "        density = self.density\\\n")]},
+    {'name': 'x4: CTI equation rounds the coefficients to integers', 'expect': ('DATAFLOW.reaction', 'SurfaceReaction.to_cti'),
+     'edits': [(R_, "        reaction_str = self.to_string(stoich_space=True,", "        reaction_str = self.to_string(stoich_space=True, stoich_format='.0f',")]},
+    {'name': 'x4: YAML equation rounds the coefficients to integers', 'expect': ('DATAFLOW.reaction', 'SurfaceReaction.to_omkm_yaml'),
+     'edits': [(R_, "        yaml_dict['equation'] = self.to_string(stoich_space=True,", "        yaml_dict['equation'] = self.to_string(stoich_space=True, stoich_format='.0f',")]},
 ]
-EQUIV = []
+# rewrites that leave every written file as it is: the instances added after the second review must stay silent
+EQUIV = [
+    {'name': 'reactor file written line by line with explicit line ends',
+     'edits': [(O_, "        with open(filename, 'w', newline=newline) as f_ptr:\n            f_ptr.write(lines_out)\n    else:\n        # Or return as string\n        return lines_out\n\ndef read_yaml", "        with open(filename, 'w', newline=newline) as f_ptr:\n            f_ptr.writelines(line + '\\n' for line in lines[:-1])\n            f_ptr.write(lines[-1])\n    else:\n        # Or return as string\n        return lines_out\n\ndef read_yaml")]},
+    {'name': 'number of surface reactants as a sum over the coefficients',
+     'edits': [(R_, "        n_surf = 0\n        for species, stoich in zip(self.reactants, self.reactants_stoich):\n            if isinstance(species.phase, InteractingInterface):\n                n_surf += stoich\n        return n_surf", "        return sum(stoich for species, stoich in zip(self.reactants, self.reactants_stoich)\n                   if isinstance(species.phase, InteractingInterface))")]},
+    {'name': 'CTI keeps the BEP relations in a dictionary keyed by position, unique by identity',
+     'edits': [(O_, "        beps = []\n        reaction_lines = []", "        beps = {}\n        reaction_lines = []"),
+               (O_, "                if bep is not None and bep not in beps:\n                    beps.append(bep)", "                if bep is not None and not any(b_ is bep for b_ in beps.values()):\n                    beps[len(beps)] = bep", 0, 2),
+               (O_, "            for bep in beps:\n                bep_CTI", "            for bep in beps.values():\n                bep_CTI")]},
+    {'name': 'rate parameters in the general presentation with six digits',
+     'edits': [(R_, "                       '                 [{: .5e}, {}, {: .5e}]{})'", "                       '                 [{:.6g}, {}, {:.6g}]{})'")]},
+    {'name': 'coefficients of the equation with three decimals',
+     'edits': [(R_, "        yaml_dict['equation'] = self.to_string(stoich_space=True,", "        yaml_dict['equation'] = self.to_string(stoich_space=True, stoich_format='.3f',")]},
+]
